@@ -195,9 +195,22 @@ def coq_dir(area):
     return os.path.join(ROOT, "coq", area)
 
 
-def coq_make(area, targets=None, timeout=1500, jobs=None):
+def coq_make(area, targets=None, timeout=1500, jobs=None, _depth=0):
     """Full .vo build of coq/<area> (coq_makefile project).  Returns (ok, log)."""
     d = coq_dir(area)
+    # areas imported read-only (-Q ../Cyy Cyy) are built first (their own check rebuilds them as well)
+    if _depth < 3:
+        try:
+            for l in open(os.path.join(d, "_CoqProject")):
+                t = l.split()
+                if len(t) >= 3 and t[0] in ("-Q", "-R") and t[1].startswith("../"):
+                    dep = os.path.basename(t[1].rstrip("/"))
+                    if dep != area and os.path.exists(os.path.join(coq_dir(dep), "_CoqProject")):
+                        okd, outd = coq_make(dep, timeout=timeout, jobs=jobs, _depth=_depth + 1)
+                        if not okd:
+                            return False, "dependency coq/%s failed to build:\n%s" % (dep, outd[-3000:])
+        except OSError:
+            pass
     if not os.path.exists(os.path.join(d, "Makefile")) or \
             os.path.getmtime(os.path.join(d, "Makefile")) < os.path.getmtime(os.path.join(d, "_CoqProject")):
         rc, out = sh(["coq_makefile", "-f", "_CoqProject", "-o", "Makefile"], cwd=d)
